@@ -10,7 +10,9 @@ BasePref == "host" :> 126 @@ "prflx" :> 110 @@ "srflx" :> 100 @@ "relay" :> 0
 TypePrefExact(t, net, off) == net = "udp" \/ off <= BasePref[t]
 TypePref(t, net, off) == IF net = "udp" THEN BasePref[t] ELSE BasePref[t] - off
 \* RFC 6544 4.2: local preference = 2^13 * direction-pref + other-pref (8191 for a single address)
-DirPref(t, tt) == IF t \in {"host", "relay"} THEN (CASE tt = "active" -> 6 [] tt = "passive" -> 4 [] tt = "so" -> 2)
+\* (a TCP candidate built without a direction has direction preference 0: the least preferred of its kind)
+DirPref(t, tt) == IF tt = "" THEN 0
+                  ELSE IF t \in {"host", "relay"} THEN (CASE tt = "active" -> 6 [] tt = "passive" -> 4 [] tt = "so" -> 2)
                   ELSE (CASE tt = "so" -> 6 [] tt = "active" -> 4 [] tt = "passive" -> 2)
 \* relay candidates: preference of the protocol spoken to the relay server (UDP > DTLS > TCP > TLS)
 RelayPref == "udp" :> 3 @@ "dtls" :> 2 @@ "tcp" :> 1 @@ "tls" :> 0
